@@ -53,7 +53,7 @@ import (
 func init() {
 	core.Register(&core.Monitor{
 		ID:            "C29",
-		Rule:          "scripts over 3 keys and time bounds {0,5,2^64-1}: every script of depth <= 2 and width <= 3 (sub-scripts as multisets of the 9 leaves, PRNG order; all / any / n-of-k with n in 0..k+1: 1483 scripts) plus PRNG-sampled depth-3 scripts (quick 2500, thorough 40000), each decoded from its canonical encoding and from one PRNG non-canonical encoding (non-minimal / indefinite array, integer and byte-string headers); (E) each decoded script x all 8 witness-key subsets x validity interval grid {absent,0,4,5,6,2^64-1}^2 through NativeScript.Evaluate; (R) per era Allegra..Dijkstra a PRNG sub-sample of the scripts x the same 288 contexts as real transactions through UtxoValidateNativeScripts and the full rule list; the (R) transactions cycle through body map key orders (ascending, key 3 last, key 8 last, descending, shuffled; with a body key above 8 from Mary on) and every rule call is repeated on the same objects (lg.Checked); a case is non-trivial when the script (E) / transaction (R) decodes; distinct by (site, era, script, encoding, key subset, interval)",
+		Rule:          "scripts over 3 keys and time bounds {0,5,2^64-1}: every script of depth <= 2 and width <= 3 (sub-scripts as multisets of the 9 leaves, PRNG order; all / any / n-of-k with n in 0..k+1: 1483 scripts) plus PRNG-sampled depth-3 scripts (quick 2500, thorough 40000), each decoded from its canonical encoding and from one PRNG non-canonical encoding (non-minimal / indefinite array, integer and byte-string headers); (E) each decoded script x all 8 witness-key subsets x validity interval grid {absent,0,4,5,6,2^64-1}^2 through NativeScript.Evaluate; (R) per era Allegra..Dijkstra a PRNG sub-sample of the scripts x the same 288 contexts as real transactions through UtxoValidateNativeScripts and the full rule list; the (R) transactions cycle through body map key orders (ascending, key 3 last, key 8 last, descending, shuffled; with a body key above 8 from Mary on) and every rule call is repeated on the same objects (lg.Checked); (U) receiver reuse: every script is decoded into a variable (and into a by-value copy of a variable) that already holds a decoded and hashed OTHER script – hash, stored bytes and evaluation must follow the new script, the original of a copy stays untouched; the same bytes are also hashed through the auxiliary-data entry point (array and #6.259 form); a case is non-trivial when the script (E) / transaction (R) decodes; distinct by (site, era, script, encoding, key subset, interval)",
 		MinNontrivial: 100000,
 		Assumptions: []string{
 			"NativeScript.Evaluate takes plain uint64 bounds; absence is passed the way its doc comment prescribes (validityStart 0, validityEnd math.MaxUint64)",
@@ -606,6 +606,7 @@ func run(c *core.Ctx) {
 	runDirect(c, co, scripts)
 	runRules(c, co, scripts, d2)
 	runScriptRef(c, co, scripts)
+	runReuse(c, co, scripts)
 	co.flush(c)
 
 	if c.Counter("evaluate_true") == 0 || c.Counter("evaluate_false") == 0 {
@@ -1030,6 +1031,139 @@ func errStr(err error) string {
 
 // runScriptRef checks the hash of native scripts carried as script_ref of a
 // Babbage+ output (canonical and non-canonical script bytes).
+// runReuse is the receiver-reuse / history family of the hash clause: a
+// NativeScript variable that has already been decoded AND hashed is decoded
+// again with a DIFFERENT script (the same variable, and a by-value copy of
+// it). Afterwards Hash() must be Blake2b-224(00 || the NEW script's original
+// bytes), Cbor() the new bytes, evaluation must follow the new script, and the
+// original of a copy must still answer for the old script.
+func runReuse(c *core.Ctx, co *collector, scripts []*script) {
+	n := len(scripts)
+	c.Parallel("reuse", n, 0, func(i int, r *core.Rand) {
+		x, y := scripts[i], scripts[(i*7+3)%n]
+		if x.String() == y.String() {
+			y = scripts[(i+1)%n]
+		}
+		var px, py *policy
+		if i%2 == 1 {
+			px = &policy{r}
+		}
+		if i%3 == 2 {
+			py = &policy{r}
+		}
+		xb, yb := x.node(px).Encode(), y.node(py).Encode()
+		if bytes.Equal(xb, yb) {
+			return
+		}
+		hx, hy := lg.ScriptHash(0, xb), lg.ScriptHash(0, yb)
+		c.Journal("C29 reuse %d x=%x y=%x", i, xb, yb)
+		report := func(class, what string, got []byte) {
+			co.add(finding{key: "C29:hash:" + class, weight: [3]int{len(xb) + len(yb), 0, 0},
+				what: what,
+				witness: map[string]any{"first_script": x.String(), "first_script_cbor": core.HexFull(xb), "second_script": y.String(), "second_script_cbor": core.HexFull(yb),
+					"hash_of_first": fmt.Sprintf("%x", hx[:]), "hash_of_second": fmt.Sprintf("%x", hy[:]), "library_answer": fmt.Sprintf("%x", got)}})
+		}
+		evalFollows := func(ns *common.NativeScript, want *script, class string) {
+			for k := 0; k < 6; k++ {
+				cx := contexts[(i*13+k*47)%nContexts]
+				if !cx.start.present || !cx.end.present {
+					continue
+				}
+				if ns.Evaluate(0, cx.start.v, cx.end.v, witnessKeyMap(cx.keys)) != ref(want, cx) {
+					report("reused-receiver:evaluation-does-not-follow-the-new-script:"+class, fmt.Sprintf("after decoding %s into a variable that held %s, Evaluate under %s does not give the new script's value", y, x, cx), nil)
+					return
+				}
+			}
+		}
+		// (1) the same variable; with and without reading the hash in between
+		for _, hashFirst := range []bool{true, false} {
+			var v common.NativeScript
+			if _, err := cbor.Decode(xb, &v); err != nil {
+				return
+			}
+			if hashFirst {
+				if h := v.Hash(); !bytes.Equal(h[:], hx[:]) {
+					return // reported by the plain hash checks
+				}
+			}
+			if _, err := cbor.Decode(yb, &v); err != nil {
+				return
+			}
+			c.Eval()
+			c.Distinct("U", i, hashFirst)
+			c.Count("reuse_same_variable", 1)
+			if h := v.Hash(); !bytes.Equal(h[:], hy[:]) {
+				report("reused-receiver:stale-hash", fmt.Sprintf("decode %s, Hash(), decode %s into the SAME variable: Hash() = %x, Blake2b-224(00 || second script) = %x (hash of the first script: %x)", x, y, h[:], hy[:], hx[:]), h[:])
+			}
+			if !bytes.Equal(v.Cbor(), yb) {
+				report("reused-receiver:stale-cbor", fmt.Sprintf("decode %s then %s into the same variable: Cbor() is not the second script's bytes", x, y), v.Cbor())
+			}
+			evalFollows(&v, y, "same-variable")
+		}
+		// (2) a by-value copy is decoded again; both orders of reading the hashes
+		for order := 0; order < 3; order++ {
+			var a common.NativeScript
+			if _, err := cbor.Decode(xb, &a); err != nil {
+				return
+			}
+			if order == 0 {
+				_ = a.Hash() // the original was hashed before it was copied
+			}
+			b := a
+			if _, err := cbor.Decode(yb, &b); err != nil {
+				return
+			}
+			c.Eval()
+			c.Distinct("V", i, order)
+			c.Count("reuse_by_value_copy", 1)
+			var ha, hb common.ScriptHash
+			if order == 2 {
+				ha, hb = a.Hash(), b.Hash()
+			} else {
+				hb = b.Hash()
+				ha = a.Hash()
+			}
+			if !bytes.Equal(hb[:], hy[:]) {
+				report("by-value-copy:copy-has-stale-hash", fmt.Sprintf("b := a (a = %s); decode %s into b: b.Hash() = %x, want %x", x, y, hb[:], hy[:]), hb[:])
+			}
+			if !bytes.Equal(ha[:], hx[:]) {
+				report("by-value-copy:original-affected", fmt.Sprintf("b := a (a = %s); decode %s into b: a.Hash() = %x, want the hash of a's own script %x", x, y, ha[:], hx[:]), ha[:])
+			}
+			if !bytes.Equal(a.Cbor(), xb) || !bytes.Equal(b.Cbor(), yb) {
+				report("by-value-copy:cbor-mixed-up", "after decoding another script into a by-value copy, Cbor() of the original / copy is not its own script", nil)
+			}
+			evalFollows(&b, y, "copy")
+			evalFollows(&a, x, "original")
+		}
+		// (3) the same bytes through the auxiliary-data entry point
+		if i%4 == 0 {
+			for _, shape := range []string{"array", "tag259"} {
+				md := cborx.M(cborx.U(1), cborx.S("c29"))
+				aux := cborx.A(md, cborx.A(cborx.Raw(yb)))
+				if shape == "tag259" {
+					aux = cborx.T(259, cborx.M(cborx.U(0), md, cborx.U(1), cborx.A(cborx.Raw(yb))))
+				}
+				ad, err := common.DecodeAuxiliaryData(aux.Encode())
+				c.Eval()
+				if err != nil || ad == nil {
+					c.Count("auxdata_decode_rejected_"+shape, 1)
+					continue
+				}
+				nss, err := ad.NativeScripts()
+				if err != nil || len(nss) != 1 {
+					c.Count("auxdata_scripts_unavailable_"+shape, 1)
+					continue
+				}
+				c.Distinct("X", i, shape)
+				c.Count("auxdata_checked_"+shape, 1)
+				if h := nss[0].Hash(); !bytes.Equal(h[:], hy[:]) {
+					report("auxdata:"+shape+":"+encName(py == nil), fmt.Sprintf("native script %s inside auxiliary data (%s form): Hash() = %x, Blake2b-224(00 || original bytes) = %x", y, shape, h[:], hy[:]), h[:])
+				}
+			}
+		}
+	})
+}
+
 func runScriptRef(c *core.Ctx, co *collector, scripts []*script) {
 	r := c.Rand("scriptref")
 	n := c.N(300, 5000)
